@@ -93,6 +93,13 @@ theorem single (w : WCtx) (fs : FS) (fuel : Nat) (p : List GPart) (x : List Char
   obtain ⟨q, hq, h⟩ := union_sound w fs fuel [p] x hx
   simp at hq; subst hq; exact h
 
+/-- the shortcut is reachable only under SCANDOTDIR: otherwise NODOTDIR is forced (for every
+    flag word) and `_parse_patterns` leaves `nounique` as the NOUNIQUE flag set it -/
+theorem shortcut_only_under_scandotdir (n : Nat) (ex b fd : Bool) (exps : List (List (List Char))) (fn : Bool)
+    (o o' : GlobObj) (hs : (GInit.ofNat n ex b fd).scandotdir = false)
+    (h : parsePatterns (GInit.ofNat n ex b fd) exps fn o = .ok o') : o'.nounique = o.nounique :=
+  shortcut_needs_no_nodotdir _ exps fn o o' (nodotdir_forced n ex b fd hs) h
+
 /-- the per-pattern list does not depend on the NOUNIQUE switch -/
 theorem perPattern_nounique (w : WCtx) (b : Bool) (fs : FS) (fuel : Nat) (p : List GPart) :
     perPattern { w with nounique := b } fs fuel p = perPattern w fs fuel p := rfl
